@@ -53,7 +53,15 @@ type Step struct {
 	Free     bool     `json:"free,omitempty"`
 	Only     string   `json:"only,omitempty"`
 	Threads  [][]Step `json:"threads,omitempty"`
+	Model    *Model   `json:"model,omitempty"`
 	PauseUs  int      `json:"pause_us,omitempty"`
+}
+
+type Model struct {
+	WL     []string `json:"wl"`
+	NMarks int      `json:"nmarks"`
+	NWd    int      `json:"nwd"`
+	NPath  int      `json:"npath"`
 }
 
 type Scenario struct {
